@@ -16,8 +16,22 @@ def run_property(prop, root='/repo', tier='quick', replay_key=None, seed=0):
         raise AnalysisError('no check registered for property %s' % prop)
     ctx = Ctx(root)
     rep = Report(prop, tier, root, seed)
+    from . import rx
+    rx.RECORD = tier == 'thorough'
+    del rx.REGISTRY[:]
     REGISTRY[prop](ctx, rep)
     if tier == 'thorough' and replay_key is None:
+        rx.RECORD = False
+        if ctx._grammars is not None:
+            from . import gram
+            gc_ = gram.crosscheck_dfas(ctx.grammars, seed)
+            rep.stat('grammar_engine_crosscheck', gc_)
+            print('%s grammar engine cross-check: %d rule DFAs agree with a direct EBNF interpreter on %d words'
+                  % (prop, gc_['rules'], gc_['words']))
+        if rx.REGISTRY:
+            cc = rx.crosscheck_all(seed)
+            rep.stat('regex_engine_crosscheck', cc)
+            print('%s regex engine cross-check: %d patterns, %d strings agree with re.fullmatch' % (prop, cc['patterns'], cc['strings']))
         # test the checker both ways before believing its verdict
         from .selftest import run_selftest
         summary = run_selftest(prop, root)
